@@ -265,7 +265,7 @@ func init() {
 		gen: func(r *eng.Rng, idx int, th bool) *eng.Program {
 			cfg := eng.GenConfig(r, pickBacking(r, "none", "store", "store", "store", "custom"), true)
 			gp := eng.GenParams{MinBatches: 3, MaxBatches: 16, NKeys: 4 + r.Intn(6), Park: true, Reopen: true, Merge: true,
-				Children: cfg.Backing != "custom" && r.Chance(1, 3), Idle: true, QuietPct: 30, CrossBias: true, BytelessPct: 4}
+				Children: cfg.Backing != "custom" && r.Chance(1, 2), Idle: true, QuietPct: 30, CrossBias: true, BytelessPct: 4}
 			if idx%5 == 2 {
 				eng.PartialCompactionProfile(r, &cfg, &gp)
 			}
